@@ -1192,3 +1192,488 @@ Section LalrLoop.
         assert (i < length all1)%nat by (apply nth_error_Some; congruence). lia.
   Qed.
 End LalrLoop.
+
+(* ---- provenance: where the kernel items of a target state come from --------------------------
+   (what table_struct checks: every item with the dot behind a symbol X in the target of an
+   X-edge has its predecessor in the source state; state 0 is the only state with (0, 0)) *)
+Section Provenance.
+  Variable ps : list prod.
+  Variable e : N.
+  Variable stop : N.
+  Variable lr1 : bool.
+  Variable fs : fsets.
+  Variable cfuel : nat.
+  Variable max_states : option nat.
+  (* the augmented symbol occurs in no right-hand side *)
+  Hypothesis Haug : forall p d, sym_at ps e p d <> Some (NT (lhs_of ps 0)).
+
+  Notation sym_at := (sym_at ps e).
+  Notation item_sym := (item_sym ps e).
+
+  Definition kernel_from (all : list mstate) (st : mstate) (X : sym) (tgt : nat) : Prop :=
+    tgt <> O /\ exists st', nth_error all tgt = Some st' /\
+      forall p d', In (p, S d') (pds (ms_items st')) ->
+                   In (p, d') (pds (ms_items st)) /\ sym_at p d' = Some X.
+
+  Definition prov (all : list mstate) (st : mstate) : Prop :=
+    (forall t acts, In (t, acts) (ms_acts st) ->
+       if t =? stop
+       then acts = [Accept] /\ exists p d, In (p, d) (pds (ms_items st)) /\ sym_at p d = Some (T stop)
+       else exists tgt, acts = [Shift tgt] /\ kernel_from all st (T t) tgt) /\
+    (forall b tgt, In (b, tgt) (ms_gotos st) -> kernel_from all st (NT b) tgt).
+
+  (* a state with (0, 0) has only items with the dot at 0 *)
+  Definition zero_like (P : list (N * nat)) : Prop :=
+    In (0, O) P -> forall p d, In (p, d) P -> d = O.
+
+  Record pinv (all : list mstate) : Prop := mkPinv {
+    pi_prov : forall k st, nth_error all k = Some st -> prov all st;
+    pi_kernel : forall k st, k <> O -> nth_error all k = Some st ->
+                exists p d, In (p, S d) (pds (ms_items st));
+    pi_zero : forall k st, nth_error all k = Some st -> zero_like (pds (ms_items st))
+  }.
+
+  (* the state list changes, tables of existing states untouched *)
+  Definition srel (all all' : list mstate) : Prop :=
+    forall k st, nth_error all k = Some st ->
+      exists st', nth_error all' k = Some st' /\
+                  ms_acts st' = ms_acts st /\ ms_gotos st' = ms_gotos st /\
+                  incl (pds (ms_items st)) (pds (ms_items st')) /\
+                  (forall p d, In (p, S d) (pds (ms_items st')) -> In (p, S d) (pds (ms_items st))) /\
+                  (In (0, O) (pds (ms_items st')) -> In (0, O) (pds (ms_items st))).
+
+  Lemma kernel_from_srel all all' st st' X tgt :
+    srel all all' -> incl (pds (ms_items st)) (pds (ms_items st')) ->
+    kernel_from all st X tgt -> kernel_from all' st' X tgt.
+  Proof.
+    intros Hr Hi (Hne & ts & Hts & Hk). split; [exact Hne|].
+    destruct (Hr tgt ts Hts) as (ts' & Hts' & _ & _ & _ & HS & _). exists ts'. split; [exact Hts'|].
+    intros p d' Hin. destruct (Hk p d' (HS p d' Hin)) as [H1 H2]. split; [apply Hi; exact H1|exact H2].
+  Qed.
+
+  Lemma prov_srel all all' st st' :
+    srel all all' -> ms_acts st' = ms_acts st -> ms_gotos st' = ms_gotos st ->
+    incl (pds (ms_items st)) (pds (ms_items st')) -> prov all st -> prov all' st'.
+  Proof.
+    intros Hr Ha Hg Hi [P1 P2]. split.
+    - intros t acts Hin. rewrite Ha in Hin. specialize (P1 t acts Hin). destruct (t =? stop).
+      + destruct P1 as (E & p & d & Hp & Hs). split; [exact E|]. exists p, d. split; [apply Hi; exact Hp|exact Hs].
+      + destruct P1 as (tgt & E & Hk). exists tgt. split; [exact E|]. eapply kernel_from_srel; eassumption.
+    - intros b tgt Hin. rewrite Hg in Hin. eapply kernel_from_srel; [exact Hr|exact Hi|apply P2; exact Hin].
+  Qed.
+
+  Lemma zero_like_srel P P' :
+    incl P P' -> (forall p d, In (p, S d) P' -> In (p, S d) P) -> (In (0, O) P' -> In (0, O) P) ->
+    zero_like P -> zero_like P'.
+  Proof.
+    intros Hi HS H0 Hz Hin p d Hp. destruct d as [|d]; [reflexivity|].
+    specialize (Hz (H0 Hin) p (S d) (HS p d Hp)). discriminate.
+  Qed.
+
+  (* pinv is kept when existing states only change as srel allows and every new state is a
+     fresh state made of advanced items *)
+  Lemma pinv_srel all all' :
+    pinv all -> srel all all' -> all <> [] ->
+    (forall k st, (length all <= k)%nat -> nth_error all' k = Some st ->
+       ms_acts st = [] /\ ms_gotos st = [] /\ ~ In (0, O) (pds (ms_items st)) /\
+       exists p d, In (p, S d) (pds (ms_items st))) ->
+    pinv all'.
+  Proof.
+    intros [P1 P2 P3] Hr Hne Hnew.
+    assert (Hcase : forall k st', nth_error all' k = Some st' ->
+              (exists st, nth_error all k = Some st /\
+                          ms_acts st' = ms_acts st /\ ms_gotos st' = ms_gotos st /\
+                          incl (pds (ms_items st)) (pds (ms_items st')) /\
+                          (forall p d, In (p, S d) (pds (ms_items st')) -> In (p, S d) (pds (ms_items st))) /\
+                          (In (0, O) (pds (ms_items st')) -> In (0, O) (pds (ms_items st)))) \/
+              (length all <= k)%nat).
+    { intros k st' Hk. destruct (nth_error all k) as [st|] eqn:E.
+      - left. destruct (Hr k st E) as (st2 & Hk2 & A). rewrite Hk in Hk2. inversion Hk2; subst st2.
+        exists st. auto.
+      - right. apply nth_error_None. exact E. }
+    constructor.
+    - intros k st' Hk. destruct (Hcase k st' Hk) as [(st & Hs & Ha & Hg & Hi & _)|Hge].
+      + eapply prov_srel; [exact Hr|exact Ha|exact Hg|exact Hi|apply (P1 k st Hs)].
+      + destruct (Hnew k st' Hge Hk) as (Ha & Hg & _). split.
+        * intros t acts Hin. rewrite Ha in Hin. destruct Hin.
+        * intros b tgt Hin. rewrite Hg in Hin. destruct Hin.
+    - intros k st' Hk0 Hk. destruct (Hcase k st' Hk) as [(st & Hs & _ & _ & Hi & _)|Hge].
+      + destruct (P2 k st Hk0 Hs) as (p & d & Hin). exists p, d. apply Hi. exact Hin.
+      + destruct (Hnew k st' Hge Hk) as (_ & _ & _ & H). exact H.
+    - intros k st' Hk. destruct (Hcase k st' Hk) as [(st & Hs & _ & _ & Hi & HS & H0)|Hge].
+      + eapply zero_like_srel; [exact Hi|exact HS|exact H0|apply (P3 k st Hs)].
+      + destruct (Hnew k st' Hge Hk) as (_ & _ & Hn0 & _). intros Hin. contradiction.
+  Qed.
+
+  Lemma srel_refl all : srel all all.
+  Proof. intros k st H. exists st. split; [exact H|]. repeat split; auto. apply incl_refl. Qed.
+
+  Lemma srel_set_items all k st its :
+    nth_error all k = Some st -> incl (pds (ms_items st)) (pds its) ->
+    (forall p d, In (p, S d) (pds its) -> In (p, S d) (pds (ms_items st))) ->
+    (In (0, O) (pds its) -> In (0, O) (pds (ms_items st))) ->
+    srel all (set_items k its all).
+  Proof.
+    intros Hk Hi HS H0 j s Hj. rewrite nth_error_set_items. destruct (Nat.eqb_spec j k) as [->|Hne].
+    - rewrite Hk in Hj. inversion Hj; subst s. rewrite Hk. cbn [option_map]. eexists.
+      split; [reflexivity|]. cbn [ms_acts ms_gotos ms_items]. auto.
+    - exists s. split; [exact Hj|]. repeat split; auto. apply incl_refl.
+  Qed.
+
+  Lemma srel_app all st : srel all (all ++ [st]).
+  Proof.
+    intros k s Hk. exists s. split.
+    - rewrite nth_error_app1; [exact Hk|]. apply nth_error_Some. congruence.
+    - repeat split; auto. apply incl_refl.
+  Qed.
+
+  Lemma srel_trans a b c : srel a b -> srel b c -> srel a c.
+  Proof.
+    intros H1 H2 k st Hk. destruct (H1 k st Hk) as (s1 & K1 & A1 & G1 & I1 & S1 & Z1).
+    destruct (H2 k s1 K1) as (s2 & K2 & A2 & G2 & I2 & S2 & Z2). exists s2.
+    split; [exact K2|]. split; [congruence|]. split; [congruence|].
+    split; [eapply incl_tran; eassumption|]. split; [intros p d H; apply S1, S2; exact H|auto].
+  Qed.
+
+  (* the closure of the state being processed *)
+  Lemma closure_srel all cur st its :
+    nth_error all cur = Some st -> closure ps e lr1 fs cfuel (ms_items st) = Some its ->
+    srel all (set_items cur its all).
+  Proof.
+    intros Hcur Hcl. destruct (closure_spec ps e lr1 fs cfuel _ _ Hcl) as (Hg & _ & _).
+    pose proof (closure_sound ps e lr1 fs cfuel _ _ Hcl) as HJ.
+    apply (srel_set_items all cur st its Hcur).
+    - intros y Hy. eapply grows_pds; eassumption.
+    - intros p d Hin. eapply grows_pred; eassumption.
+    - intros Hin. apply In_nth_error in Hin. destruct Hin as (i & Hi).
+      apply nth_error_pds in Hi. destruct Hi as (it & Hit & Hpd).
+      destruct (Nat.lt_ge_cases i (length (ms_items st))) as [Hlt|Hge].
+      + destruct (nth_error (ms_items st) i) as [it0|] eqn:E0; [|apply nth_error_None in E0; lia].
+        destruct (g_old _ _ Hg i it0 E0) as (it' & Hit' & Hpd' & _). rewrite Hit in Hit'.
+        inversion Hit'; subst it'. apply pds_In. exists it0. split; [eapply nth_error_In; exact E0|congruence].
+      + exfalso. destruct (proj1 (HJ i it Hit) Hge) as (_ & src & _ & Hs & _).
+        unfold pd in Hpd. inversion Hpd as [[Ep Ed]]. rewrite Ep in Hs.
+        rewrite item_sym_at in Hs. exact (Haug _ _ Hs).
+  Qed.
+
+  Lemma state_eqb_kernel_sub this other :
+    state_eqb ps this other = true ->
+    forall x, In x (pds (kernel ps this)) -> In x (pds (kernel ps other)).
+  Proof.
+    unfold state_eqb. intros H x Hx. apply andb_true_iff in H. destruct H as [_ Hall].
+    unfold pds in Hx. apply in_map_iff in Hx. destruct Hx as (it & <- & Hit).
+    rewrite forallb_forall in Hall. specialize (Hall it Hit). apply existsb_exists in Hall.
+    destruct Hall as (jt & Hjt & Hs). unfold item_same in Hs. apply andb_true_iff in Hs.
+    destruct Hs as [H1 H2]. apply N.eqb_eq in H1. apply Nat.eqb_eq in H2.
+    unfold pds. apply in_map_iff. exists jt. split; [unfold pd; congruence|exact Hjt].
+  Qed.
+
+  Lemma In_aset t v t' v' l : In (t', v') (aset t v l) -> (t' = t /\ v' = v) \/ In (t', v') l.
+  Proof.
+    induction l as [|[a w] r IH]; cbn [aset].
+    - intros [H|[]]. inversion H. auto.
+    - destruct (N.eqb_spec t a) as [->|Hne]; cbn [In].
+      + intros [H|H]; [inversion H; auto|right; right; exact H].
+      + intros [H|H]; [right; left; exact H|]. destruct (IH H) as [E|E]; [left; exact E|right; right; exact E].
+  Qed.
+
+  Lemma In_gset k v k' v' l : In (k', v') (gset k v l) -> (k' = k /\ v' = v) \/ In (k', v') l.
+  Proof.
+    induction l as [|[a w] r IH]; cbn [gset].
+    - intros [H|[]]. inversion H. auto.
+    - destruct (N.eqb_spec k a) as [->|Hne]; cbn [In].
+      + intros [H|H]; [inversion H; auto|right; right; exact H].
+      + intros [H|H]; [right; left; exact H|]. destruct (IH H) as [E|E]; [left; exact E|right; right; exact E].
+  Qed.
+
+  (* recording the entry for x in the state being processed *)
+  Lemma pinv_record all cur st x tgt :
+    pinv all -> nth_error all cur = Some st -> sym_eqb x (T stop) = false ->
+    kernel_from all st x tgt -> pinv (record cur x tgt all).
+  Proof.
+    intros [P1 P2 P3] Hcur Hstop Hk. rewrite record_eq.
+    assert (Hn : forall k, nth_error (map_nth cur (rec_fun x tgt) all) k =
+                           if Nat.eqb k cur then option_map (rec_fun x tgt) (nth_error all k)
+                           else nth_error all k) by (intros k; apply nth_error_map_nth).
+    assert (Hr : srel all (map_nth cur (rec_fun x tgt) all) \/ True) by (right; exact I). clear Hr.
+    (* targets keep their items *)
+    assert (Hkf : forall s s' X t0, ms_items s' = ms_items s -> kernel_from all s X t0 ->
+                                   kernel_from (map_nth cur (rec_fun x tgt) all) s' X t0).
+    { intros s s' X t0 Ei (Hne & ts & Hts & Hall). split; [exact Hne|].
+      destruct (Nat.eqb t0 cur) eqn:Et.
+      - exists (rec_fun x tgt ts). rewrite Hn, Et, Hts. split; [reflexivity|].
+        rewrite rec_fun_items, Ei. exact Hall.
+      - exists ts. rewrite Hn, Et. split; [exact Hts|]. rewrite Ei. exact Hall. }
+    assert (Hprov : forall s s', ms_items s' = ms_items s -> ms_acts s' = ms_acts s ->
+                                ms_gotos s' = ms_gotos s -> prov all s ->
+                                prov (map_nth cur (rec_fun x tgt) all) s').
+    { intros s s' Ei Ea Eg [Q1 Q2]. split.
+      - intros t acts Hin. rewrite Ea in Hin. specialize (Q1 t acts Hin). destruct (t =? stop).
+        + rewrite Ei. exact Q1.
+        + destruct Q1 as (t0 & E & Hk0). exists t0. split; [exact E|]. apply (Hkf s s'); assumption.
+      - intros b t0 Hin. rewrite Eg in Hin. apply (Hkf s s'); [exact Ei|apply Q2; exact Hin]. }
+    constructor.
+    - intros k s Hs. rewrite Hn in Hs. destruct (Nat.eqb_spec k cur) as [->|Hne].
+      + rewrite Hcur in Hs. cbn in Hs. inversion Hs; subst s. destruct (P1 cur st Hcur) as [Q1 Q2].
+        destruct x as [t|b]; cbn [rec_fun]; split; cbn [ms_acts ms_gotos ms_items].
+        * intros t' acts Hin. apply In_aset in Hin. destruct Hin as [[-> ->]|Hin].
+          -- destruct (N.eqb_spec t stop) as [->|_]; [rewrite sym_eqb_refl in Hstop; discriminate|].
+             exists tgt. split; [reflexivity|]. apply (Hkf st); [reflexivity|exact Hk].
+          -- specialize (Q1 t' acts Hin). destruct (t' =? stop); [exact Q1|].
+             destruct Q1 as (t0 & E & Hk0). exists t0. split; [exact E|]. apply (Hkf st); [reflexivity|exact Hk0].
+        * intros b t0 Hin. apply (Hkf st); [reflexivity|apply Q2; exact Hin].
+        * intros t' acts Hin. specialize (Q1 t' acts Hin). destruct (t' =? stop); [exact Q1|].
+          destruct Q1 as (t0 & E & Hk0). exists t0. split; [exact E|]. apply (Hkf st); [reflexivity|exact Hk0].
+        * intros b' t0 Hin. apply In_gset in Hin. destruct Hin as [[-> ->]|Hin].
+          -- apply (Hkf st); [reflexivity|exact Hk].
+          -- apply (Hkf st); [reflexivity|apply Q2; exact Hin].
+      + apply (Hprov s s); auto. apply (P1 k s Hs).
+    - intros k s Hk0 Hs. rewrite Hn in Hs. destruct (Nat.eqb k cur).
+      + destruct (nth_error all k) as [s0|] eqn:E; [|discriminate]. cbn in Hs. inversion Hs; subst s.
+        rewrite rec_fun_items. apply (P2 k s0 Hk0 E).
+      + apply (P2 k s Hk0 Hs).
+    - intros k s Hs. rewrite Hn in Hs. destruct (Nat.eqb k cur).
+      + destruct (nth_error all k) as [s0|] eqn:E; [|discriminate]. cbn in Hs. inversion Hs; subst s.
+        rewrite rec_fun_items. apply (P3 k s0 E).
+      + apply (P3 k s Hs).
+  Qed.
+
+  (* the ACCEPT entry *)
+  Lemma pinv_accept all cur st :
+    pinv all -> nth_error all cur = Some st ->
+    (exists p d, In (p, d) (pds (ms_items st)) /\ sym_at p d = Some (T stop)) ->
+    pinv (map_nth cur (fun st0 => mkMS (ms_sym st0) (ms_items st0)
+                                      (aset stop [Accept] (ms_acts st0)) (ms_gotos st0)) all).
+  Proof.
+    intros [P1 P2 P3] Hcur Hwit.
+    set (f := fun st0 => mkMS (ms_sym st0) (ms_items st0) (aset stop [Accept] (ms_acts st0)) (ms_gotos st0)).
+    assert (Hn : forall k, nth_error (map_nth cur f all) k =
+                           if Nat.eqb k cur then option_map f (nth_error all k) else nth_error all k)
+      by (intros k; apply nth_error_map_nth).
+    assert (Hkf : forall s s' X t0, ms_items s' = ms_items s -> kernel_from all s X t0 ->
+                                   kernel_from (map_nth cur f all) s' X t0).
+    { intros s s' X t0 Ei (Hne & ts & Hts & Hall). split; [exact Hne|].
+      destruct (Nat.eqb t0 cur) eqn:Et.
+      - exists (f ts). rewrite Hn, Et, Hts. split; [reflexivity|]. cbn [f ms_items]. rewrite Ei. exact Hall.
+      - exists ts. rewrite Hn, Et. split; [exact Hts|]. rewrite Ei. exact Hall. }
+    assert (Hprov : forall s s', ms_items s' = ms_items s ->
+                                (forall t acts, In (t, acts) (ms_acts s') -> (t = stop /\ acts = [Accept]) \/ In (t, acts) (ms_acts s)) ->
+                                ms_gotos s' = ms_gotos s ->
+                                (exists p d, In (p, d) (pds (ms_items s)) /\ sym_at p d = Some (T stop)) \/ ms_acts s' = ms_acts s ->
+                                prov all s -> prov (map_nth cur f all) s').
+    { intros s s' Ei Ea Eg Hw [Q1 Q2]. split.
+      - intros t acts Hin. destruct (Ea t acts Hin) as [[-> ->]|Hold].
+        + rewrite N.eqb_refl. rewrite Ei. destruct Hw as [Hw|Hw].
+          * split; [reflexivity|exact Hw].
+          * rewrite Hw in Hin. specialize (Q1 stop [Accept] Hin). rewrite N.eqb_refl in Q1. exact Q1.
+        + specialize (Q1 t acts Hold). destruct (t =? stop).
+          * rewrite Ei. exact Q1.
+          * destruct Q1 as (t0 & E & Hk0). exists t0. split; [exact E|]. apply (Hkf s s'); assumption.
+      - intros b t0 Hin. rewrite Eg in Hin. apply (Hkf s s'); [exact Ei|apply Q2; exact Hin]. }
+    constructor.
+    - intros k s Hs. rewrite Hn in Hs. destruct (Nat.eqb_spec k cur) as [->|Hne].
+      + rewrite Hcur in Hs. cbn in Hs. inversion Hs; subst s.
+        apply (Hprov st (f st)); [reflexivity| |reflexivity|left; exact Hwit|apply (P1 cur st Hcur)].
+        intros t acts Hin. cbn [f ms_acts] in Hin. apply In_aset in Hin. exact Hin.
+      + apply (Hprov s s); auto. apply (P1 k s Hs).
+    - intros k s Hk0 Hs. rewrite Hn in Hs. destruct (Nat.eqb k cur).
+      + destruct (nth_error all k) as [s0|] eqn:E; [|discriminate]. cbn in Hs. inversion Hs; subst s.
+        apply (P2 k s0 Hk0 E).
+      + apply (P2 k s Hk0 Hs).
+    - intros k s Hs. rewrite Hn in Hs. destruct (Nat.eqb k cur).
+      + destruct (nth_error all k) as [s0|] eqn:E; [|discriminate]. cbn in Hs. inversion Hs; subst s.
+        apply (P3 k s0 E).
+      + apply (P3 k s Hs).
+  Qed.
+
+  Lemma do_group_pinv cur all x idxs all' st st0 :
+    do_group ps e stop lr1 cur all (x, idxs) = BOk all' ->
+    nth_error all cur = Some st -> nodup_all ps e stop all ->
+    nth_error all 0 = Some st0 -> In (0, O) (pds (ms_items st0)) ->
+    group_ok ps e (pds (ms_items st)) x idxs -> idxs <> [] ->
+    pinv all -> pinv all'.
+  Proof.
+    intros H Hcur Hnd H0 Hin0 [Hidx Hg] Hne Hp. unfold do_group in H. rewrite Hcur in H.
+    destruct (sym_eqb x (T stop)) eqn:Estop.
+    - apply sym_eqb_eq in Estop. subst x. inversion H; subst all'.
+      apply (pinv_accept all cur st Hp Hcur).
+      destruct idxs as [|i r]; [congruence|]. destruct (Hg i (or_introl eq_refl)) as (p & d & Hn & Hs).
+      exists p, d. split; [eapply nth_error_In; exact Hn|exact Hs].
+    - destruct (inc_group ps e (ms_items st) idxs) as [kits|] eqn:Einc; [|discriminate].
+      destruct (inc_group_props ps e (ms_items st) idxs kits Einc (proj1 (proj1 (Hnd cur st Hcur))) Hidx)
+        as (Hknd & Hkk & Hkin & Hkfrom).
+      (* every item of kits is the advanced copy of an item of the group *)
+      assert (Hk1 : forall p d', In (p, S d') (pds kits) ->
+                                 In (p, d') (pds (ms_items st)) /\ sym_at p d' = Some x).
+      { intros p d' Hin. apply pds_In in Hin. destruct Hin as (it' & Hit' & Hpd').
+        destruct (Hkfrom it' Hit') as (i & it & Hi & Hit & Hpd). rewrite Hpd in Hpd'. inversion Hpd'; subst p d'.
+        split; [apply pds_In; exists it; split; [eapply nth_error_In; exact Hit|reflexivity]|].
+        destruct (Hg i Hi) as (p0 & d0 & Hn0 & Hs0). apply nth_error_pds in Hn0.
+        destruct Hn0 as (it0 & Hit0 & Hpd0). rewrite Hit in Hit0. inversion Hit0; subst it0.
+        unfold pd in Hpd0. inversion Hpd0; subst. exact Hs0. }
+      assert (Hk2 : forall p d, In (p, d) (pds kits) -> exists d', d = S d').
+      { intros p d Hin. apply pds_In in Hin. destruct Hin as (it' & Hit' & Hpd').
+        destruct (Hkfrom it' Hit') as (i & it & _ & _ & Hpd). rewrite Hpd in Hpd'. inversion Hpd'. eauto. }
+      assert (Hk3 : exists p d, In (p, S d) (pds kits)).
+      { destruct idxs as [|i r]; [congruence|]. destruct (Hg i (or_introl eq_refl)) as (p & d & Hn & _).
+        apply nth_error_pds in Hn. destruct Hn as (it & Hit & Hpd). exists (it_p it), (it_d it).
+        apply (Hkin i it (or_introl eq_refl) Hit). }
+      assert (Hall_ne : all <> []) by (intros E; rewrite E in Hcur; destruct cur; discriminate).
+      (* a fresh state *)
+      assert (Hnew : pinv (record cur x (length all) (all ++ [new_state x kits]))).
+      { assert (Hp1 : pinv (all ++ [new_state x kits])).
+        { apply (pinv_srel all _ Hp (srel_app all _) Hall_ne). intros k s Hk Hs.
+          assert (Hk' : (k < length (all ++ [new_state x kits]))%nat) by (apply nth_error_Some; congruence).
+          rewrite app_length in Hk'. cbn [length] in Hk'. assert (k = length all) by lia. subst k.
+          rewrite nth_error_app_new in Hs. inversion Hs; subst s. cbn [new_state ms_acts ms_gotos ms_items].
+          split; [reflexivity|]. split; [reflexivity|]. split; [|exact Hk3].
+          intros Hc. destruct (Hk2 _ _ Hc) as (d' & Hd'). discriminate. }
+        apply (pinv_record (all ++ [new_state x kits]) cur st x (length all) Hp1); [|exact Estop|].
+        - rewrite nth_error_app1; [exact Hcur|]. apply nth_error_Some. congruence.
+        - split; [destruct all; [congruence|cbn; lia]|]. exists (new_state x kits).
+          split; [apply nth_error_app_new|]. exact Hk1. }
+      destruct (find_state ps all kits) as [k|] eqn:Efind; [|inversion H; subst all'; exact Hnew].
+      destruct (find_state_some ps all kits k Efind) as (old & Hk & Heq).
+      (* an existing state with this kernel: it is not state 0 and its kernel items are in kits *)
+      assert (Hold : forall p d', In (p, S d') (pds (ms_items old)) -> In (p, S d') (pds kits)).
+      { intros p d' Hin. assert (Hker : In (p, S d') (pds (kernel ps (ms_items old)))).
+        { apply pds_In in Hin. destruct Hin as (it & Hit & Hpd). apply pds_In. exists it. split; [|exact Hpd].
+          unfold kernel. apply filter_In. split; [exact Hit|]. unfold is_kernel.
+          unfold pd in Hpd. inversion Hpd as [[Ep Ed]]. rewrite Ed. reflexivity. }
+        apply (state_eqb_kernel_sub _ _ Heq) in Hker. apply pds_In in Hker. destruct Hker as (jt & Hjt & Hpd).
+        apply pds_In. exists jt. split; [|exact Hpd]. unfold kernel in Hjt. apply filter_In in Hjt. tauto. }
+      assert (Hk0 : k <> O).
+      { intros ->. rewrite H0 in Hk. inversion Hk; subst old.
+        assert (Hker : In (0, O) (pds (kernel ps (ms_items st0)))).
+        { apply pds_In in Hin0. destruct Hin0 as (it & Hit & Hpd). apply pds_In. exists it. split; [|exact Hpd].
+          unfold kernel. apply filter_In. split; [exact Hit|]. unfold is_kernel.
+          unfold pd in Hpd. inversion Hpd as [[Ep Ed]]. rewrite Ep, N.eqb_refl. apply orb_true_r. }
+        apply (state_eqb_kernel_sub _ _ Heq) in Hker. apply pds_In in Hker. destruct Hker as (jt & Hjt & Hpd).
+        unfold kernel in Hjt. apply filter_In in Hjt.
+        assert (Hc : In (0, O) (pds kits)) by (apply pds_In; exists jt; tauto).
+        destruct (Hk2 _ _ Hc) as (d' & Hd'). discriminate. }
+      (* the entry recorded towards an existing (possibly merged) state *)
+      assert (Hexisting : forall all1 old1 st1,
+                 pinv all1 -> nth_error all1 cur = Some st1 -> nth_error all1 k = Some old1 ->
+                 pds (ms_items st1) = pds (ms_items st) -> pds (ms_items old1) = pds (ms_items old) ->
+                 pinv (record cur x k all1)).
+      { intros all1 old1 st1 Hp1 Hc1 Hk1' E1 E2. apply (pinv_record all1 cur st1 x k Hp1 Hc1 Estop).
+        split; [exact Hk0|]. exists old1. split; [exact Hk1'|]. intros p d' Hin. rewrite E2 in Hin.
+        rewrite E1. apply Hk1. apply Hold. exact Hin. }
+      destruct lr1.
+      + rewrite Hk in H. destruct (merge_states ps e (ms_items old) kits) as [its'| |] eqn:Em;
+          [| |discriminate]; inversion H; subst all'.
+        * pose proof (merge_states_pds ps e _ _ _ Em) as Hpm.
+          assert (Hsr : srel all (set_items k its' all)).
+          { apply (srel_set_items all k old its' Hk); rewrite Hpm; auto. apply incl_refl. }
+          assert (Hp1 : pinv (set_items k its' all)).
+          { apply (pinv_srel all _ Hp Hsr Hall_ne). intros j s Hj Hs. exfalso.
+            assert (j < length (set_items k its' all))%nat by (apply nth_error_Some; congruence).
+            unfold set_items in *. rewrite map_nth_length in *. lia. }
+          destruct (Hsr cur st Hcur) as (st1 & Hc1 & _ & _ & _).
+          assert (E1 : pds (ms_items st1) = pds (ms_items st)).
+          { rewrite nth_error_set_items in Hc1. destruct (Nat.eqb_spec cur k) as [->|Hnk].
+            - rewrite Hk in Hc1. cbn in Hc1. inversion Hc1; subst st1. cbn [ms_items]. rewrite Hpm.
+              rewrite Hcur in Hk. inversion Hk. reflexivity.
+            - rewrite Hcur in Hc1. inversion Hc1. reflexivity. }
+          apply (Hexisting _ (mkMS (ms_sym old) its' (ms_acts old) (ms_gotos old)) st1 Hp1 Hc1); [|exact E1|exact Hpm].
+          rewrite nth_error_set_items, Nat.eqb_refl, Hk. reflexivity.
+        * exact Hnew.
+      + inversion H; subst all'. apply (Hexisting all old st Hp Hcur Hk); reflexivity.
+  Qed.
+
+  Lemma do_groups_pinv cur gs : forall all all' st st0,
+    gfold ps e stop lr1 cur gs (BOk all) = BOk all' ->
+    nth_error all cur = Some st -> nodup_all ps e stop all ->
+    nth_error all 0 = Some st0 -> In (0, O) (pds (ms_items st0)) ->
+    (forall x idxs, In (x, idxs) gs -> group_ok ps e (pds (ms_items st)) x idxs /\ idxs <> []) ->
+    pinv all -> pinv all'.
+  Proof.
+    induction gs as [|[x idxs] gs IH]; intros all all' st st0 H Hcur Hnd H0 Hin0 Hg Hp.
+    - cbn in H. inversion H; subst. exact Hp.
+    - cbn [gfold fold_left bbind] in H.
+      destruct (do_group ps e stop lr1 cur all (x, idxs)) as [all1|a0|n0|c0|s0 n0] eqn:Eg;
+        [|exfalso; refine (gfold_not_ok ps e stop lr1 cur gs _ _ all' H); intros a; discriminate..].
+      destruct (Hg x idxs (or_introl eq_refl)) as [Hgo Hne].
+      destruct (do_group_spec ps e stop lr1 cur all x idxs all1 st Eg Hcur Hnd Hgo)
+        as (st1 & Hcur1 & Hp1 & _ & _ & Hr1 & Hnd1).
+      pose proof (do_group_pinv cur all x idxs all1 st st0 Eg Hcur Hnd H0 Hin0 Hgo Hne Hp) as Hpi1.
+      destruct (Hr1 0%nat st0 H0) as (st0' & H0' & _ & Hi0 & _).
+      apply (IH all1 all' st1 st0' H Hcur1 Hnd1 H0' (Hi0 _ Hin0)); [|exact Hpi1].
+      intros x' idxs' Hin. rewrite Hp1. apply Hg. right. exact Hin.
+  Qed.
+
+  Lemma process_state_pinv cur all st its all2 :
+    sinv ps e stop cur all -> pinv all -> nth_error all cur = Some st ->
+    closure ps e lr1 fs cfuel (ms_items st) = Some its ->
+    gfold ps e stop lr1 cur (groups ps e its) (BOk (set_items cur its all)) = BOk all2 ->
+    pinv all2.
+  Proof.
+    intros Hinv Hp Hcur Hcl Hg.
+    assert (Hall_ne : all <> []) by (intros E; rewrite E in Hcur; destruct cur; discriminate).
+    pose proof (closure_srel all cur st its Hcur Hcl) as Hsr.
+    assert (Hp1 : pinv (set_items cur its all)).
+    { apply (pinv_srel all _ Hp Hsr Hall_ne). intros j s Hj Hs. exfalso.
+      assert (j < length (set_items cur its all))%nat by (apply nth_error_Some; congruence).
+      unfold set_items in *. rewrite map_nth_length in *. lia. }
+    set (st1 := mkMS (ms_sym st) its (ms_acts st) (ms_gotos st)).
+    assert (Hcur1 : nth_error (set_items cur its all) cur = Some st1).
+    { rewrite nth_error_set_items, Nat.eqb_refl, Hcur. reflexivity. }
+    (* the well-formedness of the state list after the closure, as in process_state *)
+    destruct (closure_spec ps e lr1 fs cfuel _ _ Hcl) as (Hgrow & _ & Hndc).
+    assert (Hnd1 : nodup_all ps e stop (set_items cur its all)).
+    { intros k s Hk. rewrite nth_error_set_items in Hk.
+      destruct (Nat.eqb_spec k cur) as [->|Hne].
+      - rewrite Hcur in Hk. inversion Hk; subst s. unfold state_wf. cbn [ms_items ms_acts].
+        destruct (si_nodup _ _ _ _ _ Hinv cur st Hcur) as ((Hn0 & Hp0 & Hv0) & Hacts0). split; [|exact Hacts0].
+        split; [apply Hndc; exact Hn0|]. split.
+        + intros p d Hin. apply Hp0. eapply grows_pred; eassumption.
+        + intros p d Hin. apply pds_In in Hin. destruct Hin as (it & Hit & Hpd).
+          unfold pd in Hpd. inversion Hpd; subst p d.
+          apply (closure_valid ps e lr1 fs cfuel _ _ Hcl); [|exact Hit].
+          intros it0 Hit0. apply (Hv0 (it_p it0) (it_d it0)). apply pds_In. exists it0. auto.
+      - apply (si_nodup _ _ _ _ _ Hinv k s Hk). }
+    destruct (si_state0 _ _ _ _ _ Hinv) as (st0 & Hs0 & Hin0).
+    destruct (Hsr 0%nat st0 Hs0) as (st0' & Hs0' & _ & _ & Hi0 & _).
+    apply (do_groups_pinv cur (groups ps e its) _ all2 st1 st0' Hg Hcur1 Hnd1 Hs0' (Hi0 _ Hin0)); [|exact Hp1].
+    intros x idxs Hin. cbn [st1 ms_items]. split; [apply groups_ok; exact Hin|].
+    destruct (groups_spec ps e its) as [_ Hs]. exact (proj2 (Hs x idxs Hin)).
+  Qed.
+
+  Lemma build_loop_pinv fuel : forall cur all all',
+    build_loop ps e stop lr1 fs cfuel max_states fuel cur all = BOk all' ->
+    sinv ps e stop cur all -> pinv all -> pinv all'.
+  Proof.
+    induction fuel as [|f IH]; intros cur all all' H Hinv Hp; [discriminate|].
+    cbn [build_loop] in H. destruct (nth_error all cur) as [st|] eqn:Hcur.
+    - destruct (over_budget max_states (length all)); [discriminate|].
+      destruct (closure ps e lr1 fs cfuel (ms_items st)) as [its|] eqn:Hcl; [|discriminate].
+      apply bbind_ok in H. destruct H as (all2 & Hg & Hrec).
+      apply (IH (S cur) all2 all' Hrec).
+      + eapply process_state; eassumption.
+      + eapply process_state_pinv; eassumption.
+    - inversion H; subst. exact Hp.
+  Qed.
+
+  Lemma pinv_init : pinv [state0 ps].
+  Proof.
+    constructor.
+    - intros k st Hk. destruct k as [|k]; cbn in Hk; [|destruct k; discriminate].
+      inversion Hk; subst st. split; [intros t acts []|intros b tgt []].
+    - intros k st Hk0 Hk. destruct k as [|k]; [congruence|]. destruct k; discriminate.
+    - intros k st Hk. destruct k as [|k]; cbn in Hk; [|destruct k; discriminate].
+      inversion Hk; subst st. cbn. intros _ p d [Hc|[]]. inversion Hc. reflexivity.
+  Qed.
+
+  Lemma pinv_same_pds all all' : same_pds all all' -> pinv all -> pinv all'.
+  Proof.
+    intros [Hlen Hs] Hp. destruct all as [|s0 r] eqn:Eall.
+    - destruct all'; [|cbn in Hlen; discriminate]. exact Hp.
+    - rewrite <- Eall in *. apply (pinv_srel all all' Hp).
+      + intros k st Hk. destruct (Hs k st Hk) as (s' & Hk' & _ & Ep & Ea & Eg). exists s'.
+        split; [exact Hk'|]. split; [exact Ea|]. split; [exact Eg|]. rewrite Ep.
+        split; [apply incl_refl|auto].
+      + rewrite Eall. discriminate.
+      + intros k st Hk Hst. exfalso. assert (k < length all')%nat by (apply nth_error_Some; congruence). lia.
+  Qed.
+End Provenance.
